@@ -23,14 +23,19 @@ RULE = (
     "seeded Gymnasium environments (Pendulum, CartPole, CliffWalking) with "
     "warm-up short enough that learning, prioritised sampling and target "
     "updates run; three fresh processes per configuration: A, B (equal seeds, "
-    "different PYTHONHASHSEED / global RNG seeds / start times) and C (seed+1). "
+    "different PYTHONHASHSEED / global RNG seeds / start times / process "
+    "history: B first runs and discards another training run) and C (seed+1); "
+    "half of the off-policy configurations are continued runs (global_step > 0). "
     "Non-trivial = configuration in which parameters changed during training "
     "and run C differs from run A; distinct by (routine, environment, seed)"
 )
 REQUIRED = {"configurations_compared": 28, "digest_fields_compared": 300,
             "configurations_where_seed_matters": 20}
 TIMEOUT = {"quick": 1700, "thorough": 7000}
-ASSUMPTIONS = ["np.empty is replaced by a version that fills the (unspecified) "
+ASSUMPTIONS = ["run B executes another, discarded training run of the same "
+               "routine (different seed, own objects) in its process before the "
+               "measured one; run A does not",
+               "np.empty is replaced by a version that fills the (unspecified) "
                "memory with a run-dependent value, so reads of uninitialised "
                "memory become visible as non-determinism",
                "the environment (and its action-space sampler) is seeded by the "
@@ -49,6 +54,8 @@ GYM = [("ddpg", "Pendulum-v1", None), ("sac", "Pendulum-v1", None),
        ("pets", "Pendulum-v1", "rescale"), ("td3", "Pendulum-v1", "rescale"),
        ("sac", "Pendulum-v1", "rescale"), ("td7", "Pendulum-v1", "rescale"),
        ("mrq", "Pendulum-v1", "rescale")]
+RESUMABLE = ("dqn", "nature_dqn", "ddqn", "per", "ddpg", "td3", "td3_lap", "sac",
+             "td7", "mrq")
 COST = {"mrq": 40, "pets": 30, "td7": 25, "dqn": 18, "ppo": 20, "dynaq": 15,
         "sac": 12, "sched:smt": 15, "sched:amt": 15, "sched:uts": 15}
 
@@ -68,6 +75,10 @@ def base_cfg(algo, seed, rng):
         cfg["low"], cfg["high"] = [-1.0], [1.0]
     if algo in ("reinforce", "actor_critic", "a2c"):
         cfg["discrete"] = bool(rng.integers(2))
+    if algo in RESUMABLE and rng.random() < 0.5:
+        # continued run: non-zero starting step count, absolute budget
+        cfg["global_step"] = int(rng.integers(5, 12))
+        cfg["total_timesteps"] += cfg["global_step"]
     return cfg
 
 
@@ -81,6 +92,9 @@ def gen_cases(tier, seed):
                               cost=COST.get(algo, 8)))
         for algo, env_id, wrap in GYM:
             cfg = base_cfg(algo, int(rng.integers(1, 1 << 16)), rng)
+            if algo in RESUMABLE and "global_step" not in cfg:
+                cfg["global_step"] = 9
+                cfg["total_timesteps"] += 9
             cfg["gym_env"] = env_id
             cfg["gym_wrap"] = wrap
             cfg["gym_max_steps"] = 17
@@ -107,7 +121,7 @@ def run_case(case):
     algo = cfg["algo"] + (":" + cfg["gym_env"] if cfg.get("gym_env") else "") + (
         "+" + cfg["gym_wrap"] if cfg.get("gym_wrap") else "")
     runs = []
-    for ambient, hs, c in ((11, 1, cfg), (977, 4242, cfg),
+    for ambient, hs, c in ((11, 1, cfg), (977, 4242, dict(cfg, prelude=True)),
                            (11, 1, dict(cfg, seed=cfg["seed"] + 1))):
         d, err = one_run(c, ambient, hs)
         if d is None:
